@@ -606,7 +606,11 @@ func (cf *ContractFile) parse(src, file string) error {
 			cf.Lemmas = append(cf.Lemmas, curLemma)
 			cur = nil
 		case kw == "uses" && curLemma != nil:
-			curLemma.Uses = append(curLemma.Uses, strings.Fields(strings.ReplaceAll(rest, ",", " "))...)
+			for _, part := range splitTop(rest) {
+				if part = strings.TrimSpace(part); part != "" {
+					curLemma.Uses = append(curLemma.Uses, part)
+				}
+			}
 		case kw == "floats" && curLemma != nil:
 			fm, err := parseFloatMode(rest)
 			if err != nil {
